@@ -49,7 +49,7 @@ pub fn run(ctx: &mut Ctx) {
     cfg.cost_events = true;
     let n = ctx.n(500, 30_000);
     let cases = matcher_cases(prop, ctx, &cfg, n);
-    ctx.ev.rule = "generated ledgers with SPLIT/UNSPLIT (ratios 2, 4, 5, 10, 0.5, 2.5, and consolidations by 3, 6, 7, 9 of exactly divisible holdings) at any position relative to purchases, sales, 30-day windows and cost events. Oracles on the real calculate(): (a) for each split line, the ledger rewritten in post-split units (earlier quantities × ratio, earlier unit prices ÷ ratio, line removed) gives the same gains, losses, proceeds, allowable costs per disposal (legs per rule and acquisition date) and the same closing cost, with closing quantities equal; (b) inserting SPLIT r immediately followed by UNSPLIT r (same day, or next day with no trade between) changes nothing. Ledgers where a security has both a split and a cost event are in known-finding class splitBeforeCostEvent (D5). Correspondence: whole report vs model. Non-trivial = accepted ledger with a split between a disposal and its 30-day acquisition, or a split and ≥ 2 disposals; distinct by ledger text.".into();
+    ctx.ev.rule = "generated ledgers with SPLIT/UNSPLIT (ratios 2, 4, 5, 10, 0.5, 2.5, and consolidations by 3, 6, 7, 9 of exactly divisible holdings) at any position relative to purchases, sales, 30-day windows and cost events. Oracles on the real calculate(): (a) for each split line, the ledger rewritten in post-split units (earlier quantities × ratio, earlier unit prices ÷ ratio, line removed) gives the same gains, losses, proceeds, allowable costs per disposal (legs per rule and acquisition date) and the same closing cost, with closing quantities equal; (b) inserting SPLIT r immediately followed by UNSPLIT r (same day, or next day with no trade between) changes nothing. Securities with both a split and a cost event are compared like any other (D5, the pre-pass ignoring splits, was repaired). Correspondence: whole report vs model. Non-trivial = accepted ledger with a split between a disposal and its 30-day acquisition, or a split and ≥ 2 disposals; distinct by ledger text.".into();
     let ex = run_impl::wide_exemptions();
     let mut r = Rng::new(ctx.seed ^ 0xC10);
     let mut cli_left: u32 = if ctx.tier == Tier::Quick { 8 } else { 80 };
@@ -78,11 +78,8 @@ pub fn run(ctx: &mut Ctx) {
                 _ => None,
             };
             if let Some(what) = diff.or(qdiff) {
-                if d5 {
-                    ctx.ev.known("splitBeforeCostEvent", "D5: the cost pre-pass ignores SPLIT/UNSPLIT, so a capital return/accumulation after a split is apportioned (or refused) on pre-split share counts");
-                } else {
-                    ctx.ev.violation("oracle", format!("rewriting the ledger in post-split units changes the figures: {what}"), replay_text(prop, "oracle (a): original below, twin after '# twin'", &what, &l, &[format!("case {name}"), "twin:".into()].into_iter().chain(twin.iter().map(|t| t.dsl())).collect::<Vec<_>>()));
-                }
+                if d5 { ctx.ev.count("twin-difference-with-cost-events"); }
+                ctx.ev.violation("oracle", format!("rewriting the ledger in post-split units changes the figures: {what}"), replay_text(prop, "oracle (a): original below, twin after '# twin'", &what, &l, &[format!("case {name}"), "twin:".into()].into_iter().chain(twin.iter().map(|t| t.dsl())).collect::<Vec<_>>()));
                 break;
             }
         }
@@ -109,9 +106,7 @@ pub fn run(ctx: &mut Ctx) {
                 // scaled back: still no change expected
                 if let Some(what) = rep::diff_report(&vout, &base, &p) {
                     let what = what.replace("impl ", "with the pair ").replace("model ", "without ");
-                    let d5 = l.iter().any(|t| t.ticker == tk && matches!(t.kind, Kind::CapReturn | Kind::Accumulation)) && gap == 1;
-                    if d5 { ctx.ev.known("splitBeforeCostEvent", "D5: the cost pre-pass ignores SPLIT/UNSPLIT, so a capital return/accumulation after a split is apportioned (or refused) on pre-split share counts"); }
-                    else { ctx.ev.violation("oracle", format!("SPLIT {ratio} then UNSPLIT {ratio} of {tk} on {date}/{second} with no trade between changes the report: {what}"), replay_text(prop, "oracle (b)", &what, &var, &[format!("case {name}")])); }
+                    { ctx.ev.violation("oracle", format!("SPLIT {ratio} then UNSPLIT {ratio} of {tk} on {date}/{second} with no trade between changes the report: {what}"), replay_text(prop, "oracle (b)", &what, &var, &[format!("case {name}")])); }
                 }
             }
         }
@@ -133,8 +128,12 @@ pub fn run(ctx: &mut Ctx) {
             ctx.ev.sample(json!({"case": name, "ledger": ledger::dsl(&l).lines().collect::<Vec<_>>()}));
         }
     }
-    // D5 witness replayed on the real code
+    // D5 (repaired by fix commit, see known_findings.json): its witness must be accepted, with the capital
+    // return spread over the 5 post-split shares still held
     if let Ok(w) = ledger::from_dsl("2024-01-01 BUY A 10 @ 10\n2024-02-01 SPLIT A RATIO 2\n2024-03-01 SELL A 15 @ 10\n2024-04-01 CAPRETURN A 5 TOTAL 10\n") {
-        if run_impl::impl_calc(&w, None, &ex).is_err() { ctx.ev.known("splitBeforeCostEvent", "D5: the cost pre-pass ignores SPLIT/UNSPLIT, so a capital return/accumulation after a split is apportioned (or refused) on pre-split share counts"); }
+        ctx.ev.evaluations += 1;
+        if let Err(e) = run_impl::impl_calc(&w, None, &ex) {
+            ctx.ev.violation("oracle", format!("a capital return after a split is refused although shares are held: {} {}", e.kind, e.detail), replay_text(prop, "oracle: the same ledger in post-split units (BUY A 20 @ 5, no SPLIT line) is accepted", "split changes more than share counts", &w, &[]));
+        }
     }
 }
